@@ -229,7 +229,7 @@ pub fn run(ctx: &Ctx, st: &mut Stats, round: bool) {
         }
     }
     // ---- Timestamp / OracleDate: all dates x critical times x 12 units
-    let tstride = ctx.tier.pick(40_009, 7, 1);
+    let tstride = ctx.tier.pick(40_009, 11, 1);
     let times_ref = &times;
     ctx.par(st, "Timestamp,OracleDate: dates x critical-times x 12 units", true, 0, (N_DAYS as i64 + tstride - 1) / tstride, |st, i, _| {
         let n = MIN_DAY as i64 + i * tstride;
